@@ -16,7 +16,7 @@ import (
 func Run(r *core.Run) {
 	nKeys := core.Pick(r, 64, 1024)
 	r.Rule = fmt.Sprintf("keys: %d per type x 5 types x 5 nonce variants x {sha2-256, sha2-512}: reveal/commitment/derivation identities against the reference, all commitments pairwise distinct; "+
-		"chains: every sequence create (update|recover)^<=3 deactivate x 3 key-type assignments + mixed x 2 algorithms, and every non-constant assignment of the two algorithms to the operations of a chain (algorithm migration), linkage of every edge through the parser; "+
+		"chains: every sequence create (update|recover)^<=3 deactivate x 3 key-type assignments + mixed x 2 algorithms, and every non-constant assignment of the two algorithms to the operations of a chain (algorithm migration), keys with and without a nonce along one chain (none, all, alternating), linkage of every edge through the parser; "+
 		"distinct = distinct (key, nonce, algorithm) commitments and distinct chain edges; non-trivial = all", nKeys)
 	r.Assumptions = []string{"reference: reveal = mh(code, JCS(jwk)), commitment = mh(code, H(JCS(jwk))) with the JWK model {kty, crv, x, y[, nonce]}", "chains are built by the harness generator with fresh keys per step"}
 	nonces := []string{"", "AAAAAAAAAAAAAAAAAAAAAA", "_____________________w", "AQIDBAUGBwgJCgsMDQ4PEA", "AAAAAAAAAAAAAAAAAAAAAQ"}
@@ -117,12 +117,19 @@ func Run(r *core.Run) {
 		code    uint
 		flavour int // 0 plain; 1 anchoring window + anchor origin on every operation that can carry them
 		sched   []uint // algorithm of the commitments made by create (index 0) and by step i (index i+1); nil = code throughout
+		nonces  int    // which of the chain's keys carry a nonce: 0 none, 1 all, 2 every other one starting with the first, 3 ... with the second
 	}
 	var jobs []job
 	for _, s := range seqs {
-		for _, ta := range typeAssign {
+		for ti, ta := range typeAssign {
 			for _, code := range codes {
-				jobs = append(jobs, job{s, ta, code, 0, nil}, job{s, ta, code, 1, nil})
+				jobs = append(jobs, job{s, ta, code, 0, nil, 0}, job{s, ta, code, 1, nil, 0})
+				if ti == 0 || ti == 3 {
+					// keys with and without a nonce along one chain, parsed by one parser
+					for np := 1; np <= 3; np++ {
+						jobs = append(jobs, job{s, ta, code, np % 2, nil, np})
+					}
+				}
 			}
 		}
 	}
@@ -136,7 +143,7 @@ func Run(r *core.Run) {
 				sched = append(sched, codes[mask>>i&1])
 			}
 			for _, ta := range [][]string{typeAssign[0], typeAssign[3]} {
-				jobs = append(jobs, job{s, ta, 0, mask % 2, sched})
+				jobs = append(jobs, job{s, ta, 0, mask % 2, sched, (mask / 2) % 4})
 			}
 		}
 	}
@@ -160,6 +167,9 @@ func Run(r *core.Run) {
 		n := 0
 		fresh := func() *keys.Key {
 			k := keys.New(j.types[n%len(j.types)], 100+n)
+			if j.nonces == 1 || j.nonces == 2 && n%2 == 0 || j.nonces == 3 && n%2 == 1 {
+				k = k.WithNonce("AQIDBAUGBwgJCgsMDQ4PEA")
+			}
 			n++
 			return k
 		}
@@ -173,7 +183,7 @@ func Run(r *core.Run) {
 		suffix := ops.Suffix(create, code)
 		// commitment in force, and where it was carried
 		updC, recC := create["delta"].(ops.M)["updateCommitment"].(string), create["suffixData"].(ops.M)["recoveryCommitment"].(string)
-		id0 := fmt.Sprintf("chain/%s/%v/%d%v/%d", j.seq, j.types, j.code, j.sched, j.flavour)
+		id0 := fmt.Sprintf("chain/%s/%v/%d%v/%d/nonces%d", j.seq, j.types, j.code, j.sched, j.flavour, j.nonces)
 		r.Case(id0+"/create", func() *core.Fail {
 			b := ops.Bytes(create)
 			if _, err := parser.GetRevealValue(b); err == nil {
